@@ -107,4 +107,4 @@ ENGINES.append({"name": "ndorder", "path": "vf/ndorder.py", "serves_properties":
 for _p in ("C07", "C08", "C09", "C10", "C11", "C12", "C15", "C18"):
     ENGINES[0]["serves_properties"].append(_p)
 
-FIX_COMMITS += ["884e9ec", "8882d88", "e44ca7b"]
+FIX_COMMITS += ["884e9ec", "8882d88", "e44ca7b", "fd434c6"]
